@@ -1,4 +1,4 @@
-From TLXV Require Import C05.AutoDefs C05.StableMerge C05.Model.
+From TLXV Require Import C05.AutoDefs C05.StableMerge C05.Model C09.LoserTree C05.C09Model.
 Require Extraction. Require ExtrOcamlBasic.
 Extraction Language OCaml.
-Extraction "../ocaml/gen/C05_model.ml" Model.ref_mwm StableMerge.msteps StableMerge.total.
+Extraction "../ocaml/gen/C05_model.ml" Model.ref_mwm C09Model.c9_obs StableMerge.msteps StableMerge.total.
